@@ -36,10 +36,10 @@ def reviewed : List (List String × String) := [
   ([".", "solution.go", "solutionImpl.newVehicle", "range model.expressions"], "writes per-expression cells, keyed"),
   ([".", "solution.go", "solutionImpl.isFeasible", "range model.expressions"], "each expression's values are computed independently of the others"),
   (["factory", "constraint_capacity.go", "stringAnyMap", "range parsed"], "map to map"),
-  (["factory", "constraint_capacity.go", "addMaximumConstraint", "range names"], "one Maximum constraint per resource in map order: harmless because every Maximum answers with a uniform hint (CheckFacts.maximum_hints_are_uniform_per_regime) and all constraints must hold"),
+  (["factory", "constraint_capacity.go", "addMaximumConstraint", "range names"], "collects the resource names, which are SORTED before the constraints are added (as repaired, E46: added in map order, a resource in the skip-the-vehicle regime next to one outside it made the number of tie-break draws depend on the build); see no_registration_in_map_order"),
   (["factory", "constraint_capacity.go", "setExpressionValues", "range names"], "sets values keyed by resource name"),
   (["factory", "constraint_capacity.go", "setExpressionValues", "range names"], "sets values keyed by resource name"),
-  (["factory", "constraint_no_mix.go", "addNoMixConstraint", "range mixingItems"], "one no-mix constraint per item type; all must hold, hints are uniform (no positions hint)"),
+  (["factory", "constraint_no_mix.go", "addNoMixConstraint", "range mixingItems"], "one no-mix constraint per item type, ADDED in map order: harmless only because every no-mix estimate answers with the same hint (no_mix_hints_are_uniform) and the constraints form one contiguous block"),
   (["factory", "constraint_no_mix.go", "addMixingItems", "range parsed"], "map to map"),
   (["factory", "plan_units.go", "mergeUnits", "range ui.stops"], "writes into maps keyed by stop id"),
   (["factory", "plan_units.go", "mergeUnits", "range oldUnit.stops"], "writes into maps keyed by stop id"),
@@ -53,6 +53,18 @@ def allowed (r : List String) : Bool := reviewed.any (fun a => a.1 == r)
 /-- Every map-order site of the source is on the reviewed list. -/
 theorem every_map_order_site_is_reviewed : NR.Facts.mapRanges.all allowed = true := by decide
 
+/-- The only loop over a map that REGISTERS something with the model (a constraint, an objective term — the order of
+registration is the order in which estimates are asked and terms are summed) is the one that adds the no-mix constraints.
+A second one (the capacity constraints until E46 was repaired; the capacity objectives in the round-10 seeded change)
+breaks this theorem. -/
+theorem no_registration_in_map_order :
+    NR.Facts.mapRangesRegistering = [["factory", "constraint_no_mix.go", "addNoMixConstraint", "AddConstraint"]] := by decide
+
+/-- … and that one is harmless: whichever no-mix constraint is asked first, the hint is the same. -/
+theorem no_mix_hints_are_uniform : NR.Facts.noMixEstimateHints = ["constNoPositionsHint"] := by decide
+
 end NR.FactThms.MapOrderFacts
 
 #print axioms NR.FactThms.MapOrderFacts.every_map_order_site_is_reviewed
+#print axioms NR.FactThms.MapOrderFacts.no_registration_in_map_order
+#print axioms NR.FactThms.MapOrderFacts.no_mix_hints_are_uniform
